@@ -352,6 +352,19 @@ class Rewriter:
             i = c + 1
         return out
 
+    def expect_calls(self, b):
+        """R6: `OPT.expect("msg")` -> `opt_expect(OPT)` (may panic; afterwards the value is there)"""
+        while True:
+            mm = mask(b)
+            m = re.search(r'\.expect\s*\(', mm)
+            if not m:
+                return b
+            o = m.end() - 1
+            c = match_close(mm, o)
+            rs = receiver_start(mm, m.start())
+            b = b[:rs] + 'opt_expect(%s)' % b[rs:m.start()] + b[c + 1:]
+            self.fired('R6:expect')
+
     # generic "replace call NAME(args)" helper ------------------------------------------
     def map_calls(self, b, name_re, fn, rule):
         """for every match of name_re immediately followed by '(' call fn(prefix_match, [args]) -> text"""
@@ -548,6 +561,61 @@ class Rewriter:
         self.fired('R16:guard-drop-explicit')
         return b
 
+
+    # R22: collections::Vec element moves -- pointers are (buffer id, index) pairs into a ghost heap of token sequences --------
+    def vecops_rules(self, b):
+        c = self.cfg
+        # casts between pointer types are the identity on (buffer, index) pairs
+        b = self.sub('R22:slice-len', r'\(\*other\)\.len\(\)', 'other.len()', b)
+        b = self.sub('R22:raw-slice-ptr', r'\bother as \*const T\b', 'other.as_ptr()', b)
+        b = self.sub('R2:ptr-cast', r'\s+as \*(?:mut|const) (?:i8|u8|_|T)\b', '', b)
+        b = self.sub('R2:ptr-cast', r'\s+as _\b', '', b)
+        b = self.sub('R17:bound-deref', r'\b(Included|Excluded)\(&(\w+)\)', r'\1(\2)', b)
+        # the back-reference from a Drain to its vector becomes an explicit parameter `source_vec`
+        b = self.sub('R22:vec-backref', r'(?m)^\s*vec: NonNull::from\(self\),\s*$', '', b)
+        b = self.sub('R22:vec-backref', r'(?m)^\s*let (?:mut )?source_vec = self\.vec\.as_mut\(\);\s*$', '', b)
+        b = self.sub('R22:vec-backref', r'(?m)^\s*let (?:mut )?vec = self\.vec\.as_mut\(\);\s*$', '', b)
+        # bounds-checked / unchecked element addresses
+        b = self.sub('R22:index-mut', r'let (\w+): \*mut T = &mut self\[(\w+)\];', r'let \1 = self.index_mut_ptr(\2);', b)
+        b = self.map_calls(b, r'\bself\.get_unchecked', lambda m_, a: 'self.get_unchecked_ptr(%s)' % a[0], 'R22:get_unchecked')
+        # destructor of a whole slice
+        def _ds(m_, a):
+            mm = re.match(r'^ptr::slice_from_raw_parts_mut\((.*)\)$', a[0].strip(), re.S)
+            if not mm:
+                return None
+            inner = split_args(mm.group(1))
+            return 'cb_drop_slice(hs, ds, %s, %s)' % (inner[0], inner[1])
+        b = self.map_calls(b, r'(?<![\w.:])ptr::drop_in_place', _ds, 'R22:drop-slice')
+        # raw pointer primitives
+        b = self.map_calls(b, r'(?<![\w.:])ptr::write', lambda m_, a: 'buf_write(hs, %s)' % ', '.join(a), 'R22:ptr-write')
+        b = self.map_calls(b, r'(?<![\w.:])ptr::read', lambda m_, a: 'buf_read(hs, %s)' % ', '.join(a), 'R22:ptr-read')
+        b = self.map_calls(b, r'(?<![\w.:])ptr::replace', lambda m_, a: 'buf_replace(hs, %s)' % ', '.join(a), 'R22:ptr-replace')
+        b = self.map_calls(b, r'(?<![\w.:])ptr::copy_nonoverlapping', lambda m_, a: 'buf_copy_nonoverlapping(hs, %s)' % ', '.join(a), 'R22:ptr-copy_nonoverlapping')
+        b = self.map_calls(b, r'(?<![\w.:])ptr::copy', lambda m_, a: 'buf_copy(hs, %s)' % ', '.join(a), 'R22:ptr-copy')
+        b = self.map_calls(b, r'(?<![\w.:])slice::from_raw_parts(?:_mut)?', lambda m_, a: 'slice_from_raw_parts(hs, %s)' % ', '.join(a), 'R22:from_raw_parts')
+        b = self.map_calls(b, r'(?<![\w.:])arith_offset', lambda m_, a: 'p_byte_offset(%s)' % ', '.join(a), 'R22:arith_offset')
+        b = self.method_to_fn(b, 'add', 'p_add', 'R22:ptr-add', extra_first='hs')
+        b = self.method_to_fn(b, 'offset', 'p_offset', 'R22:ptr-offset', extra_first='hs')
+        b = self.method_to_fn(b, 'is_null', 'p_is_null', 'R22:is_null')
+        b = self.sub('R22:ptr-eq', r'\b(self\.(?:ptr|end)) == (self\.(?:ptr|end))\b', r'p_eq(\1, \2)', b)
+        b = self.sub('R22:zeroed', r'\bmem::zeroed\(\)', 'zst_value()', b)
+        b = self.sub('R22:forget', r'\bmem::forget\(self\)', 'vec_forget(self)', b)
+        b = self.sub('R8:size_of-T', r'\bmem::size_of::<\s*T\s*>\(\)', 'ELEM_SIZE()', b)
+        # model types
+        b = self.sub('R22:model-type', r'(?<![\w:])Vec::with_capacity_in\(', 'VecM::with_capacity_in(', b)
+        b = self.sub('R22:model-type', r'(?<![\w:])RawVec::with_capacity_in\(', 'RawVecM::with_capacity_in(', b)
+        b = self.sub('R22:model-type', r'(?<![\w:])Vec \{', 'VecM {', b)
+        b = self.sub('R1:phantom', r'\b\w+\s*:\s*PhantomData\s*,?', '', b)
+        # `self.for_each(drop)` is by definition: call next() until None, dropping every item
+        extra = ', Ghost(*source_vec)' if c.get('drain_drop') else ''
+        b = self.sub('R19:for_each-drop', r'\bself\.for_each\(drop\);',
+                     'loop { match self.next(hs%s) { Some(x__) => { elem_drop(ds, x__); } None => { break; } } }' % extra, b)
+        # R12: thread the ghost heap through the calls that take it
+        for pat in [r'\bself\.reserve', r'\bself\.buf\.reserve', r'\bself\.buf\.cap', r'\bself\.capacity', r'\bself\.append_elements',
+                    r'\bself\.extend_from_slice_copy_unchecked', r'\b\w+\.set_len', r'\bVecM::with_capacity_in', r'\bRawVecM::with_capacity_in']:
+            b = self.map_calls(b, pat, lambda m_, a: None if (a and a[0] == 'hs') else '%s(%s)' % (m_.group(0).rstrip('(').rstrip(), ', '.join(['hs'] + a)), 'R12:thread-heap')
+        return b
+
     # R20: RawVec growth -- the arena seen through its Alloc interface as a ghost "buffer owned" state -----------------
     def rawvecgrow_rules(self, b):
         b = self.sub('R20:use-stmt', r'(?m)^\s*use crate::AllocErr;\s*$', '', b)
@@ -661,6 +729,7 @@ class Rewriter:
         # R0: join method chains split over lines (`x\n    .f()` -> `x.f()`): layout only
         b = self.sub('R0:join-chains', r'\s*\n\s*\.(?=[A-Za-z_])', '.', b)
         b = self.macros(b)                                                   # R6
+        b = self.expect_calls(b)                                             # R6
         b = self.sub('R5:unsafe-block', r'\bunsafe\s*\{', '{', b)            # R5
         kind = self.cfg.get('kind', 'bump')
         # R3: Cell fields of Bump / iterator
@@ -695,6 +764,12 @@ class Rewriter:
             b = self.sub('R21:needs_drop', r'\bmem::needs_drop::<\s*T\s*>\(\)', 'NEEDS_DROP()', b)
         if kind == 'rawvecgrow':
             b = self.rawvecgrow_rules(b)
+        if kind == 'vecops':
+            # the element-move model has its own (complete) rule set: none of the arena rules below applies
+            b = self.vecops_rules(b)
+            b = self.sub('R10:unreachable', r'\bcore::hint::unreachable_unchecked\(\)', 'unreachable_unchecked::<()>()', b)
+            b = self.desugar_combinators(b)
+            return b
         if kind == 'drainfilter':
             b = self.drainfilter_rules(b)
         if kind == 'strretain':
